@@ -33,3 +33,8 @@ chk("C20", "model_checking",
     "A recording metric factory is installed before the first witness exists; the single-worker search over a two-log witness compares, after every Update, the delta of every counter and label with the model's prediction for that verdict, so a missing, misplaced or mislabelled increment on any path/state combination in the bound is caught.",
     "Counters are process-wide, hence one worker. Bounds: sizes 0..6 (quick) / 0..12 (thorough).",
     "DESIGN.md §5 C20")
+chk("C05", "model_checking",
+    "stateless DFS over thread interleavings of the real code under a controlled scheduler with iterative preemption bounding; porcupine linearizability check of every complete execution against wmodel",
+    "Six 2-4 thread scenarios (conflicting first use, fork race from one old size, growth vs refresh, different logs, fork race + later growth, two writers) are explored on the in-memory store at storage-operation and lock granularity and on SQLite with the production one-connection pool: every schedule up to preemption bound 2 (quick; 3 for two threads) / 4, 3 and unbounded (thorough). Every complete execution's call/return history plus final reads must be linearizable w.r.t. the protocol model with the property's one exception, reads must be monotone, and no schedule may deadlock. A supplementary free-running -race pass looks for unsynchronised accesses.",
+    "Scheduling points are storage/lock operations, not arbitrary memory accesses. Executions beyond the reported preemption bound are not covered. The race pass is sampling and not the deciding step.",
+    "DESIGN.md §5 C05, §4.2")
